@@ -31,7 +31,32 @@ func ruleNamedLookThrough(c *ctx.Ctx, r *core.Reporter) {
 				if ta, ok := x.(*ast.TypeAssertExpr); ok && ta.Type != nil {
 					if st, isStar := ta.Type.(*ast.StarExpr); isStar {
 						if sel, isSel := st.X.(*ast.SelectorExpr); isSel && exprStr(sel.X) == "types" && structuralKinds[sel.Sel.Name] {
+							subjectCalls := []*ast.CallExpr{}
 							if call, isCall := ast.Unparen(ta.X).(*ast.CallExpr); isCall {
+								subjectCalls = append(subjectCalls, call)
+							} else if id, isIdent := ast.Unparen(ta.X).(*ast.Ident); isIdent {
+								// a local that holds the type of an expression: every definition is typeOf(e)/TypeOf(e)
+								defs := localAssignments(fd, id.Name)
+								all := len(defs) > 0
+								for _, d := range defs {
+									dc, ok := ast.Unparen(d.rhs).(*ast.CallExpr)
+									if !ok {
+										all = false
+										break
+									}
+									if _, _, cn := callee(p.TypesInfo, dc); cn != "TypeOf" && cn != "typeOf" {
+										all = false
+										break
+									}
+									subjectCalls = append(subjectCalls, dc)
+								}
+								if !all {
+									subjectCalls = nil
+								} else {
+									subjectCalls = subjectCalls[:1]
+								}
+							}
+							for _, call := range subjectCalls {
 								if _, _, cn := callee(p.TypesInfo, call); cn == "TypeOf" || cn == "typeOf" {
 									nt++
 									key := fmt.Sprintf("exprtype:%s|%s#%d:%s", rel, ctx.FuncName(fd), nt, sel.Sel.Name)
